@@ -15,11 +15,11 @@ static void csdo_cb(CO_CSDO *c, uint16_t idx, uint8_t sub, uint32_t code) { (voi
 
 enum { H_TICK, H_HB0, H_HB3, H_HBC_OFF, H_HBC_3, H_HBC_Y, H_SYNC_ON, H_SYNC_OFF, H_CYC2, H_CYC0, H_EMCY_DIS, H_EMCY_EN, H_TP_INV, H_TP_VAL, H_TP_EVT, H_TP_INH,
        H_HBFRAME, H_SEGDL, H_SEGUL, H_BLKDL, H_BLKUL, H_A3, H_SEG, H_CSDO_REQ, H_CSDO_RESP, H_ESET, H_ECLR, H_LSS_STORE, H_LSS_WAIT, H_START, H_STOP, H_PREOP,
-       H_APP_CREATE, H_APP_DELETE, H_RPDO, H_TRIG, H_ESET9, H_LSS_SEL3, H_SAVE, H_N };
+       H_APP_CREATE, H_APP_DELETE, H_RPDO, H_TRIG, H_ESET9, H_LSS_SEL3, H_LSS_SEL1, H_LSS_REM3, H_SAVE, H_N };
 static const char *const HN[] = { "tick", "SDO 1017h=0", "SDO 1017h=3", "SDO 1016h:1={9,0}", "SDO 1016h:1={9,3}", "SDO 1016h:1={10,2}", "SDO 1005h=40000080h", "SDO 1005h=80h", "SDO 1006h=2000us", "SDO 1006h=0",
        "SDO 1014h disable", "SDO 1014h enable", "SDO 1800h:1 invalid", "SDO 1800h:1 valid", "SDO 1800h:5=2", "SDO 1800h:3=20", "heartbeat of node 9", "open segmented download", "open segmented upload", "open block download",
        "open block upload", "block upload start", "download segment", "SDO client request", "SDO client response", "COEmcySet(2)", "COEmcyClr(2)", "LSS configure node-id 7 + store", "LSS switch waiting", "NMT start", "NMT stop", "NMT pre-op",
-       "app timer create", "app timer delete", "RPDO frame", "COTPdoTrigPdo(0)", "COEmcySet(9)", "LSS selective: vendor, product, revision (matching)", "SDO 1010h:1='save'" };
+       "app timer create", "app timer delete", "RPDO frame", "COTPdoTrigPdo(0)", "COEmcySet(9)", "LSS selective: vendor, product, revision (matching)", "LSS selective: vendor (matching)", "LSS identify remote slave: vendor, product, revision low (matching)", "SDO 1010h:1='save'" };
 
 static const char *cfg_name(int c) { return c == 0 ? "reset communication" : c == 1 ? "reset node" : c == 2 ? "reset communication, OPERATIONAL" : c == 3 ? "reset node, producer config" :
                                             c == 4 ? "reset node, 1017h in a stored communication parameter group" : "reset communication, 1017h in a stored communication parameter group"; }
@@ -59,7 +59,8 @@ static int build(int cfg)
 static const char *ev_name(int e) { return HN[e]; }
 
 #define SDO_RXID ((SRV1 ? 0x640u : 0x600u) + Node.NodeId)
-static void sdo8(uint8_t c, uint16_t idx, uint8_t sub, uint32_t v) { w_rx8(&Node, SDO_RXID, c, (uint8_t)idx, (uint8_t)(idx >> 8), sub, (uint8_t)v, (uint8_t)(v >> 8), (uint8_t)(v >> 16), (uint8_t)(v >> 24)); }
+static void sdo8(uint8_t c, uint16_t idx, uint8_t sub, uint32_t v) { if ((c & 0xE3) == 0x23 && (c & 0x0C)) { int n = (c >> 2) & 3; v = (v & (0xFFFFFFFFu >> (8 * n))) | (0xC35AA500u << (8 * (3 - n))); }   /* unused bytes of an expedited download are not zero */
+    w_rx8(&Node, SDO_RXID, c, (uint8_t)idx, (uint8_t)(idx >> 8), sub, (uint8_t)v, (uint8_t)(v >> 8), (uint8_t)(v >> 16), (uint8_t)(v >> 24)); }
 
 static int step(int e)
 {
@@ -97,6 +98,8 @@ static int step(int e)
     case H_ECLR: COEmcyClr(&Node.Emcy, 2); break;
     case H_ESET9: COEmcySet(&Node.Emcy, 9, 0); break;
     /* three of the four frames of a selective switch (identity 1018h = 1,2,3,4): a fresh node has nothing in progress */
+    case H_LSS_SEL1: memset(d, 0, 8); d[0] = 0x40; d[1] = 1; w_rx(&Node, 0x7E5, 8, d); break;
+    case H_LSS_REM3: for (int k = 0; k < 3; k++) { memset(d, 0, 8); d[0] = (uint8_t)(0x46 + k); d[1] = (uint8_t)(1 + k); w_rx(&Node, 0x7E5, 8, d); } break;      /* services 70, 71, 72 of the six-frame identify sequence */
     case H_LSS_SEL3: for (int k = 0; k < 3; k++) { memset(d, 0, 8); d[0] = (uint8_t)(0x40 + k); d[1] = (uint8_t)(1 + k); w_rx(&Node, 0x7E5, 8, d); } break;
     case H_LSS_STORE: d[0] = 4; d[1] = 1; w_rx(&Node, 0x7E5, 8, d); d[0] = 17; d[1] = 7; w_rx(&Node, 0x7E5, 8, d); d[0] = 23; d[1] = 0; w_rx(&Node, 0x7E5, 8, d); break;
     case H_LSS_WAIT: d[0] = 4; d[1] = 0; w_rx(&Node, 0x7E5, 8, d); break;
@@ -116,9 +119,9 @@ static int step(int e)
 }
 
 /* ------------------------------------------------------------------ probes */
-enum { P_RD_HB, P_RD_HBC, P_RD_SYNC, P_SYNC, P_HBFRAME, P_RPDO, P_START, P_LSS, P_CSDO, P_TICKS, P_SEGUL, P_EMCY, P_TRIG, P_WRRD, P_LSS_SERIAL, P_N };
+enum { P_RD_HB, P_RD_HBC, P_RD_SYNC, P_SYNC, P_HBFRAME, P_RPDO, P_START, P_LSS, P_CSDO, P_TICKS, P_SEGUL, P_EMCY, P_TRIG, P_WRRD, P_LSS_SERIAL, P_LSS_SEL_REST, P_LSS_REM_REST, P_N };
 static const char *const PN[] = { "SDO read 1017h", "SDO read 1016h:1", "SDO read 1005h", "SYNC", "heartbeat of node 9", "RPDO frame", "NMT start", "LSS switch configuration + inquire node-id", "SDO client request + response",
-    "4 ticks", "segmented upload of a domain", "COEmcySet(9), COEmcySet(1)", "COTPdoTrigPdo(0)", "SDO write + read 2120h", "LSS selective serial number (matching) + inquire node-id" };
+    "4 ticks", "segmented upload of a domain", "COEmcySet(9), COEmcySet(1)", "COTPdoTrigPdo(0)", "SDO write + read 2120h", "LSS selective serial number (matching) + inquire node-id", "LSS selective product, revision, serial (matching)", "LSS identify remote slave: revision high, serial low, serial high (matching)" };
 
 static char  T_txt[2][1500]; static int T_len[2]; static uint64_t T_hash[2];
 static void t_add(int w, const char *fmt, ...) __attribute__((format(printf, 2, 3)));
@@ -158,6 +161,9 @@ static void run_probe(int w, int p)
     case P_EMCY: COEmcySet(&Node.Emcy, 9, 0); t_obs(w, 0); COEmcySet(&Node.Emcy, 1, 0); break;
     case P_TRIG: COTPdoTrigPdo(Node.TPdo, 0); break;
     case P_WRRD: sdo8(0x23, 0x2120, 0, 0xA1B2C3D4u); t_obs(w, 0); sdo8(0x40, 0x2120, 0, 0); break;
+    /* the rest of a multi-frame LSS sequence: a fresh node has not seen its beginning and must not complete it */
+    case P_LSS_SEL_REST: for (int k = 1; k < 4; k++) { memset(d, 0, 8); d[0] = (uint8_t)(0x40 + k); d[1] = (uint8_t)(1 + k); w_rx(&Node, 0x7E5, 8, d); t_obs(w, 0); } break;
+    case P_LSS_REM_REST: for (int k = 3; k < 6; k++) { memset(d, 0, 8); d[0] = (uint8_t)(0x46 + k); d[1] = (uint8_t)(k == 3 ? 3 : 4); w_rx(&Node, 0x7E5, 8, d); t_obs(w, 0); } break;
     case P_LSS_SERIAL: d[0] = 0x43; d[1] = 4; w_rx(&Node, 0x7E5, 8, d); t_obs(w, 0); memset(d, 0, 8); d[0] = 0x5E; w_rx(&Node, 0x7E5, 8, d); break;
     default: break;
     }
